@@ -214,3 +214,22 @@ def f_bool_int(a):
 def f_bits(a):
     m = 4 | 8
     return (a & 4, a & 12, a & 5, a & 255, (a & m) == 4, (a & m) == m, 1 << 3, 6 ^ 3)
+
+
+def _tag(s):
+    return '<' + s + '>'
+
+
+def f_lazy_iterables(s, a):
+    """`in map(...)`, list(map(...)) and getattr with a list default"""
+    r = 0
+    if s in map(_tag, ('a', 'b', 'ab')):
+        r += 1
+    names = list(map(_tag, ('x', 'y')))
+    if ('<' + s + '>') in names:
+        r += 2
+    r += len(names)
+    b = Box(a)
+    r += 100 * len(getattr(b, 'no_such_attribute', []))
+    r += 1000 * len(getattr(b, 'no_such_attribute', [1, 2]))
+    return r
